@@ -410,6 +410,13 @@ func followUps(c *k8s.VerifC17) (entry, msg, site string) {
 	return "", "", ""
 }
 
+func followUpsIf(cond bool, c *k8s.VerifC17) (string, string, string) {
+	if !cond {
+		return "", "", ""
+	}
+	return followUps(c)
+}
+
 // safePopulate: a panic while the (valid, admissible) objects of the prior state are being
 // stored is returned to the caller, which reports it against the scenario.
 func safePopulate(c *k8s.VerifC17, ctx int, viaSync bool) (string, string) {
@@ -495,13 +502,21 @@ func runIngOnce(p pool, ing *networking.Ingress, f int, ctx int, combo string, p
 		}
 	}
 	// the worker's own path: add, then remove
-	c2, pm2, ps2 := p.get(f, ctx, true)
+	// the worker's own path: add, (for an accepted object: the event-driven follow-ups,) remove.
+	// An accepted object gets a fresh controller, so that what the follow-up events add to the
+	// listers does not leak into the next shape.
+	accepted := out[1] == '0' && len(mine) == 0
+	p2 := p
+	if accepted {
+		p2 = nil
+	}
+	c2, pm2, ps2 := p2.get(f, ctx, true)
 	obj2 := ing.DeepCopy()
 	if pm2 != "" {
 		note(4, "prior-state", pm2, ps2)
 	} else if m, s := guard(func() { _ = c2.Sync(obj2, false) }); m != "" {
 		note(4, "sync", m, s)
-	} else if e, m, s := followUps(c2); m != "" {
+	} else if e, m, s := followUpsIf(accepted, c2); m != "" {
 		note(4, "followup:"+e, m, s)
 	} else if m, s := guard(func() { _ = c2.Sync(obj2, true) }); m != "" {
 		note(4, "sync-delete", m, s)
@@ -1469,7 +1484,7 @@ func runCRDOnce(fam string, obj interface{}, f, ctx int, combo string, panics *[
 		note(syncStage, "prior-state", pm2, ps2)
 	} else if m, s := guard(func() { _ = c2.Sync(o3, false) }); m != "" {
 		note(syncStage, "sync", m, s)
-	} else if e, m, s := followUps(c2); m != "" {
+	} else if e, m, s := followUpsIf(out[0] == '0' && (fam == "pol" || out[1] == '0'), c2); m != "" {
 		note(syncStage, "followup:"+e, m, s)
 	} else if m, s := guard(func() { _ = c2.Sync(o3, true) }); m != "" {
 		note(syncStage, "sync-delete", m, s)
@@ -2782,7 +2797,7 @@ func runObject(kind string, obj interface{}, f int, ctx int, panics *[]PanicInfo
 		if viaSync {
 			if m, s := guard(func() { _ = c.Sync(o, false) }); m != "" {
 				note("sync", m, s)
-			} else if e, m, s := followUps(c); m != "" {
+			} else if e, m, s := followUpsIf(accepted, c); m != "" {
 				note("followup:"+e, m, s)
 			} else if m, s := guard(func() { _ = c.Sync(o, true) }); m != "" {
 				note("sync-delete", m, s)
